@@ -722,6 +722,7 @@ class FsIntrinsics(Intrinsics):
         outs.append((s_ret, Sym(r, PYV, fresh=False)))
         s_exc = base.fork()
         cls = fresh('cb_exc_cls', ExcClsS)
+        s_exc.assume(cls != EXC['BaseException'])      # abstract root: some concrete subclass
         exc = ExcV(cls, fresh('exc', IntS), 'callback')
         s_exc.trace.append('cb%d:raise' % node.lineno)
         outs.append((s_exc, Raise(exc)))
